@@ -28,7 +28,7 @@ impl RelFlags {
             empty_entries: rng.chance(1, 4),
             trailing_comma: rng.chance(1, 4),
             epochs: rng.chance(1, 3),
-            max_entries: 1 + rng.below(4),
+            max_entries: if rng.chance(1, 60) { 20 + rng.below(80) } else { 1 + rng.below(4) },
             neg_archs: rng.chance(1, 2),
         }
     }
